@@ -522,6 +522,44 @@ example : (match addAll cfg0 {} [evCreate, evA, evB], addAll cfg0 {} [evB, evA, 
       s₁.conflictedCount == 1 && s₂.conflictedCount == 1 && s₁.documentCount == 1 && s₂.documentCount == 1
     | _, _ => false) = true := by decide
 
+/-! ### the by-time form of the deactivation clause is FALSE of the code (open finding) -/
+
+private def evDeact : Event := ⟨1, 20, 500, [100], "pX", { id := "did:nuts:x", f := fun _ => [] }⟩
+
+/-- full-strength by-time form of "a deactivated DID never resolves as active again": once the arrived set holds a
+    deactivation of a DID, a `Resolve` by a time at or after every signing time, without `AllowDeactivated`, is never
+    answered with a version. -/
+def DeactivatedNeverActiveByTimeStmt : Prop :=
+  ∀ (cfg : Cfg) (l : List Event) (s : Store) (e : Event) (t : Nat) (r : ResolveMeta) (d : Doc) (m : Meta),
+    addAll cfg {} l = .ok s → e ∈ l → isDeactivated e.doc = true → (∀ x ∈ l, x.sigTime ≤ t) →
+    r.time = some t → r.allowDeactivated = false → resolve s e.doc.id (some r) ≠ .ok (d, m)
+
+/-- … and it does NOT hold: `Resolve` skips deactivated versions when a resolve time is given
+    (`latestNonDeactivatedRequested` = false, `matches` refuses the deactivated version) and goes on to the last ACTIVE
+    version. Witness: create at 10, deactivation at 20, `Resolve(ResolveTime = 40)` answers the created document with
+    `deactivated = false`. Replayed on the real store: harness/corpus/C10/deactivated-did-resolves-as-active-by-time.jsonl -/
+theorem deactivated_resolves_active_by_time_witness : ¬ DeactivatedNeverActiveByTimeStmt := by
+  intro h
+  have key : (match addAll cfg0 {} [evCreate, evDeact] with
+      | .ok s => (match resolve s "did:nuts:x" (some { time := some 40 }) with
+          | .ok (_, m) => !m.deactivated && m.version == 0 | _ => false)
+      | _ => false) = true := by decide
+  cases hs : addAll cfg0 {} [evCreate, evDeact] with
+  | err x => rw [hs] at key; cases key
+  | panic x => rw [hs] at key; cases key
+  | ok s =>
+    rw [hs] at key
+    simp only at key
+    cases hr : resolve s "did:nuts:x" (some { time := some 40 }) with
+    | err x => rw [hr] at key; cases key
+    | panic x => rw [hr] at key; cases key
+    | ok p =>
+      obtain ⟨d, m⟩ := p
+      refine h cfg0 [evCreate, evDeact] s evDeact 40 { time := some 40 } d m hs (by simp) (by decide) ?_ rfl rfl hr
+      intro x hx
+      simp only [List.mem_cons, List.mem_nil_iff, or_false] at hx
+      rcases hx with rfl | rfl <;> decide
+
 /-- the hypotheses of the new theorems are met by the same concrete stores: the fork is cached and counted, survives a
     restart, `Iterate` lists the DID once, the history is the sorted event list, a covering update clears the conflict
     (in a late arrival order too) and a deactivation answers `deactivated` -/
